@@ -10,6 +10,8 @@ const (
 	T_COMMENT
 	T_DOC_COMMENT
 	T_INLINE_HTML
+	T_LNUMBER
+	T_DNUMBER
 )
 
 func (i ID) String() string { return "T" }
